@@ -109,6 +109,23 @@ def drive_products(rec, part, ells, reps):
                                    "res": [qc.residues(r) for r in res], "_what": label})
             for kd in order:
                 L.fn("q120_delete_vec_mat1col_product_%s_precomp" % kd, "v p")(fresh[kd])
+        # the tables this process has been using all along are still alive: deleting other tables of the same kinds must not affect them
+        for (kind, lx, ly) in kinds[:3]:
+            ell = 5
+            xs = [lanes(qc, lx, "random", rng, i) for i in range(ell)]
+            ys = [lanes(qc, ly, "random", rng, i) for i in range(ell)]
+            for impl in ("ref", "avx2"):
+                label = "q120 product %s_%s ell=%d on the long-lived table after other tables of its kind were deleted" % (kind, impl, ell)
+                if not rec.progress(label):
+                    continue
+                res = q120.product(qc, kind, impl, xs, ys)
+                rec.case((kind, impl, "after-delete"))
+                if res is None:
+                    rec.violation(label + ": operand modified or write outside the result", {"kind": kind})
+                    continue
+                events.append({"e": "QProd", "kind": kind, "impl": impl, "ell": ell,
+                               "x": [elem_residues(qc, lx, e) for e in xs], "y": [elem_residues(qc, ly, e) for e in ys],
+                               "res": [qc.residues(r) for r in res], "_what": label})
     rec.data["events"] = events
 
 
@@ -192,6 +209,8 @@ def drive_conversions(rec, count):
         Sx.u64[:] = sx.reshape(-1)
         Sy.u64[:] = sy.reshape(-1)
         L.fn("q120_add_bbb_simple", "v uppp")(ms, Ss.addr, Sx.addr, Sy.addr)
+        if not (np.array_equal(Sx.u64, sx.reshape(-1)) and np.array_equal(Sy.u64, sy.reshape(-1)) and Sx.canaries_ok() and Sy.canaries_ok() and Ss.canaries_ok()):
+            rec.violation("q120_add_bbb_simple on structured lanes: a source operand was modified, or a write outside the result", {})
         ss = Ss.u64.reshape(ms, 4)
         for t in range(ms):
             rec.case(("add_bbb structured", pairs[t][0], pairs[t][1]))
